@@ -39,6 +39,10 @@ CHECKS = {
    technique="TLC trace validation of self-replacement and element-substitution requests (end-to-end and stubbed) against Replace.tla: the specified result of replacing a pattern by itself is the identity on atoms and term tuples",
    text="Requests whose replacement pattern equals the search pattern (same / reordered atoms, with or without own terms, replace_all on/off) and single-element substitutions on crystals in every pose and cell; any clause failing on them counts. Chained A->B->A runs and the real MOF files are not part of this check yet.",
    note=REP_NOTE + " Known finding K-pair-table-misaligned applies."),
+ "C13": dict(engine="lmpops", ref="DESIGN.md 4/C13, 3.6",
+   technique="TLA+ spec LmpFile (what the file must state, what reading back must give) + TLC trace validation of files written by mofun and parsed by an independent tokenizer, and of the structures read back",
+   text="Structures from Atoms histories (stale/unused table entries, emptied kinds) and from MC_Lmp (every library fragment x no cell / orthorhombic / tilted / tilt factors beyond half a box x charge sign x coordinates inside, negative, far outside x molecule groups contiguous / with gaps / not from 0 x both atom styles): TLC decides header counts, declared type counts vs contents, box, tilt factors, masses and labels, every coefficient entry token for token, atom and term lines, and the re-read structure field by field; path and file-object APIs and byte-stability of rewrites are compared by the harness and judged as clauses.",
+   note="Trusted: the tokenizer in harness/lmpops.py (deliberately not mofun's reader), katoms.py, TLC. Numbers exactly representable at 6 decimals; one trailing comment per coefficient string."),
  "C14": dict(engine="massops", ref="DESIGN.md 4/C14",
    technique="TLA+ spec MassGuess over the generated mass table; MC_MassGuess enumerates every table mass and boundary (TLC checks the distinguishability corollary); answers of guess_elements_from_masses and load_lmpdat validated by TLC (Trace_MassGuess)",
    text="Exhaustive over the table the repository ships: each tabulated mass, +-(tol-2u) and +-(tol+2u) around it, both sides of every midpoint between mass neighbours (covering all out-of-order pairs), non-atomic masses and mixed lists, for several tolerances; TLC decides membership in the nearest-within-tolerance set and the all-types fallback.",
@@ -70,7 +74,8 @@ m = {"version": 1,
      "hooks": {"guard": "MOFUN_VERIF", "enable": "no source hooks are needed: the harness imports /repo in place (editable install) and observes public state; bin/check exports MOFUN_VERIF=1",
                "baseline_off_cmd": "cd /repo && /venv/bin/python -m pytest -ra -q -p no:cacheprovider --timeout=900 --continue-on-collection-errors",
                "source_commits": [], "add_only": True},
-     "engines": [{"name": "massops", "path": "harness/massops.py", "serves_properties": ["C14"], "kind_free_text": "exhaustive case enumeration by TLC + TLC validation of answers"},
+     "engines": [{"name": "lmpops", "path": "harness/lmpops.py", "serves_properties": ["C13", "C09"], "kind_free_text": "TLC validation of written files (independent tokenizer) and re-read structures"},
+                 {"name": "massops", "path": "harness/massops.py", "serves_properties": ["C14"], "kind_free_text": "exhaustive case enumeration by TLC + TLC validation of answers"},
                  {"name": "cmlops", "path": "harness/cmlops.py", "serves_properties": ["C16"], "kind_free_text": "document enumeration by TLC + TLC validation of loaded objects"},
                  {"name": "replaceops", "path": "harness/replaceops.py", "serves_properties": ["C04", "C05", "C06", "C07", "C08"],
                   "kind_free_text": "TLC trace validation of observed replace calls (end-to-end with recorded search; stubbed search enumerated by MC_Replace)"},
